@@ -21,7 +21,8 @@ open Spec
 /-! ## 0. the tables of the current source are the ones the proofs are about -/
 
 /-- `router._mtypes`, the tuple of `Rule.add`, the keys `MessageRouter.addMatch` stores each parameter
-under, how the type constraint is translated, the keys of the rule text written by
+under, how the type constraint is translated, whether the client escapes apostrophes (all fields of
+`Tables`), the keys of the rule text written by
 `DBusClientConnection.addMatch` with the variable written under each, the `kwargs` keys of
 `Bus.dbus_AddMatch`, the keyword arguments of the `addMatch` call in `notifyOnSignal`.  All lists are
 emitted in a canonical order: reordering the `if` chain / the `add` calls in the source is not
@@ -184,33 +185,30 @@ example :
 
 /-! ## 3. the rule text -/
 
-/-- `rule_text_roundtrip`.  For rule values free of `,` and `=` (the hypothesis `TextOk`; in particular
-for values free of `'`, `,`, `=`) and at least one constraint, `Bus.dbus_AddMatch` recovers from the
-text written by `DBusClientConnection.addMatch` exactly the constraints the client was given
-(`arg=[]` and `arg=None` being the same rule). -/
-theorem rule_text_roundtrip (a : RuleArgs) (hok : a.TextOk) (hne : renderItems a ≠ []) :
-    parseRuleGen (renderRule a) = .ok a.normalize := by
+/-- `rule_text_roundtrip`.  For EVERY rule - values may contain commas, equals signs, backslashes and
+apostrophes; the rule may be empty - `Bus.dbus_AddMatch` recovers from the text written by
+`DBusClientConnection.addMatch` exactly the constraints the client was given (`arg=[]` and `arg=None`
+being the same rule).  No hypothesis: the client escapes apostrophes (C12-05), the bus scans with the
+quoting rules (C12-06). -/
+theorem rule_text_roundtrip (a : RuleArgs) : parseRuleGen (renderRule a) = .ok a.normalize := by
   unfold parseRuleGen
   rw [tables_current.2.1]
-  exact parse_render a hok hne
+  exact parse_render a
 
 /-- `client_text_means_constraints`.  The text written by `DBusClientConnection.addMatch`, read with the
 grammar of the DBus specification (`Spec.ruleTextMeaning`: comma-separated `key=value`, apostrophe
 quoting, backslash-apostrophe outside quotes; keys `type`, ..., `argN`, `argNpath` with decimal `N`) -
-a definition that never looks at txdbus - means exactly the constraints of the rule.  Hypothesis: no
-value contains an apostrophe (the code does not escape; see notes).  Commas, equals signs and
-backslashes inside values are fine, the empty rule included. -/
-theorem client_text_means_constraints (a : RuleArgs) (hq : a.QuoteFree) :
+a definition that never looks at txdbus - means exactly the constraints of the rule.  For every rule. -/
+theorem client_text_means_constraints (a : RuleArgs) :
     ruleTextMeaning (renderRule a) = some (constraintsOf a) :=
-  text_means_constraints a hq
+  text_means_constraints a
 
-/-- On the domain where txdbus's own bus can read the text (`TextOk`: no `,` `=` in values; at least one
-constraint) and the text is valid DBus (`QuoteFree`): what `Bus.dbus_AddMatch` extracts and what the
-specification says the text means are the same constraints. -/
-theorem bus_reads_what_the_text_means (a : RuleArgs) (hok : a.TextOk) (hq : a.QuoteFree) (hne : renderItems a ≠ []) :
+/-- What `Bus.dbus_AddMatch` extracts from the client's text and what the specification says the text
+means are the same constraints - for every rule. -/
+theorem bus_reads_what_the_text_means (a : RuleArgs) :
     ∃ b, parseRuleGen (renderRule a) = .ok b ∧ ruleTextMeaning (renderRule a) = some (constraintsOf b) := by
-  refine ⟨a.normalize, rule_text_roundtrip a hok hne, ?_⟩
-  rw [text_means_constraints a hq]
+  refine ⟨a.normalize, rule_text_roundtrip a, ?_⟩
+  rw [text_means_constraints a]
   congr 1
   unfold constraintsOf RuleArgs.normalize
   cases ha : a.args with
@@ -228,6 +226,19 @@ theorem bus_reads_what_the_text_means (a : RuleArgs) (hok : a.TextOk) (hq : a.Qu
       cases hp : a.argPaths with
       | none => simp [normPairs]
       | some l' => cases l' <;> simp [normPairs]
+
+/-- Beyond the client's own texts: whenever the specification reads a text as a list of `key=value`
+pairs, `_parseMatchRule` returns exactly that list (unquoted values, values with commas, equals signs,
+escaped apostrophes, ...). -/
+theorem bus_scanner_follows_spec (text : Str) (ps : List (Str × Str)) (h : parseRuleText text = some ps) :
+    parseMatchRule text = .ok ps := by
+  unfold parseRuleText at h
+  unfold parseMatchRule
+  cases text with
+  | nil => simp at h; simp [busItems, ← h]
+  | cons c t =>
+    simp only [List.isEmpty_cons, Bool.false_eq_true, if_false] at h
+    exact busItems_of_spec _ _ _ h
 
 /-- ... and the rule the bus stores from that text is the rule the client stores locally.  (For a rule
 with an empty-string constraint value this holds only because both routers drop the value while the text
@@ -250,24 +261,15 @@ theorem bus_rule_is_client_rule (a : RuleArgs) : mkRule Tables.gen a.normalize =
       · simp only [RuleArgs.get, RuleArgs.normalize]
         exact normPairs_if a.argPaths (fun v => Except.ok (Rule.add Tables.gen r pk.snd (Tables.gen.storedValue Param.argPaths v))) _
 
-example : RuleArgs.TextOk { mtype := some "signal".toList, args := some [(12, "it's".toList)] } ∧
-    renderItems { mtype := some "signal".toList, args := some [(12, "it's".toList)] } ≠ [] := by
-  have hnone : optOk none := fun s hs => by cases hs
-  refine ⟨⟨?_, hnone, hnone, hnone, hnone, hnone, hnone, hnone, ?_, ?_⟩, by decide⟩
-  · intro s hs; cases hs; exact ⟨by decide, by decide⟩
-  · intro iv hiv
-    have : iv = (12, "it's".toList) := by simpa using hiv
-    subst this; exact ⟨by decide, by decide⟩
-  · intro iv hiv; exact (List.not_mem_nil hiv).elim
+/-- The text itself, on an example: `type`, an `argN` with a two-digit index, a comma, an equals sign and an
+escaped apostrophe inside values. -/
+example : renderRule { mtype := some "signal".toList, path := some "/a".toList,
+                       args := some [(12, "it's".toList), (0, "a,b=c".toList)] }
+    = "type='signal',path='/a',arg12='it'\\''s',arg0='a,b=c'".toList := by decide
 
-/-- The text itself, on an example (`type`, then `argN` with a two-digit index). -/
-example : renderRule { mtype := some "signal".toList, path := some "/a".toList, args := some [(12, "x".toList)] }
-    = "type='signal',path='/a',arg12='x'".toList := by decide
-
-/-- The empty rule (no constraint at all) is rendered as the empty text, which `Bus.dbus_AddMatch`
-rejects with `ValueError` (unpacking `''.split('=')`): the round trip needs at least one constraint. -/
-theorem empty_rule_rejected_by_bus : renderRule {} = [] ∧ parseRule curBusKeys [] = .error .valueError :=
-  ⟨rfl, rfl⟩
+/-- The empty rule (no constraint at all) is the empty text; the bus reads it as the rule without
+constraints (it matches every message). -/
+theorem empty_rule_accepted : renderRule {} = [] ∧ parseRule curBusKeys [] = .ok {} := ⟨rfl, rfl⟩
 
 /-! ## 4. the proxy's signal subscription -/
 
@@ -415,6 +417,13 @@ theorem prefix_argpath_trailing_slash :
     ∧ specMatches { argPaths := some [(0, "/aa/bb/".toList)] } (sigMsg "/a/b" (some [.str "/aa/".toList])) = true := by
   decide
 
+/-- C12-05: without the escaping (`renderRuleWith false`, the client before the repair) the text for
+`arg0="it's"` is `arg0='it's'`, which is not a rule at all by the specification's grammar. -/
+theorem prefix_apostrophe_unescaped :
+    renderRuleWith false { args := some [(0, "it's".toList)] } = "arg0='it's'".toList
+    ∧ ruleTextMeaning (renderRuleWith false { args := some [(0, "it's".toList)] }) = none
+    ∧ ruleTextMeaning (renderRule { args := some [(0, "it's".toList)] }) = some [.arg 0 "it's".toList] := by decide
+
 end Txdbus.Route
 
 #print axioms Txdbus.Route.tables_current
@@ -431,7 +440,8 @@ end Txdbus.Route
 #print axioms Txdbus.Route.client_text_means_constraints
 #print axioms Txdbus.Route.bus_reads_what_the_text_means
 #print axioms Txdbus.Route.bus_rule_is_client_rule
-#print axioms Txdbus.Route.empty_rule_rejected_by_bus
+#print axioms Txdbus.Route.empty_rule_accepted
+#print axioms Txdbus.Route.bus_scanner_follows_spec
 #print axioms Txdbus.Route.proxy_gate
 #print axioms Txdbus.Route.proxy_delivery
 #print axioms Txdbus.Route.proxy_select
@@ -443,3 +453,4 @@ end Txdbus.Route
 #print axioms Txdbus.Route.prefix_arg_constraint_skipped_no_body
 #print axioms Txdbus.Route.prefix_argpath_plain_startswith
 #print axioms Txdbus.Route.prefix_argpath_trailing_slash
+#print axioms Txdbus.Route.prefix_apostrophe_unescaped
